@@ -29,6 +29,7 @@ func runC18(c *Ctx) {
 	c.rule("M6", "stop(): IsOn() is re-validated under the object's mutex before the command is stopped and an end message logged (exactly one end message per run across Execute and the monitor's Stop)", 1)
 	c.rule("M8", "the command of a subprocess is set up so that its pipes are read to the end: of the fields of exec.Cmd, WaitDelay (which makes Wait close the pipes and discard what was not read yet) is never set", 3)
 	c.rule("M10", "the composite the Output* family wraps the caller's loggers in keeps the streams apart: its Log forwards to every member's Log and its LogError to every member's LogError (the obligation C13/L4)", 2)
+	c.rule("M11", "what Output() captures is written under a lock: the string logger's writer, shared by the output and the error log.Logger, and the composite that wraps it follow the locking discipline of C13/L1 (fields written by concurrent entry points are written under the write lock)", 4)
 	c.rule("M5", "Output*: the string returned is the content of the string logger combined into the subprocess's loggers, read after Execute", 1)
 
 	exec := c.fn(spPkg, "(*Subprocess).Execute")
@@ -202,6 +203,19 @@ func runC18(c *Ctx) {
 	c.c18Output()
 	c.c18PipesDrained()
 	c.compositeForwards("M10", false)
+	// M11: the two stream goroutines of a command log concurrently; Output* combines the caller's loggers with a string logger
+	// whose single writer serves both its log.Logger values
+	c.ruleAlias = map[string]string{"L1": "M11", "L2": "M11"}
+	for _, tname := range []string{"StringWriter", "StringLoggers", "MultipleLogger"} {
+		if sp := c.pkg("logs"); sp != nil {
+			if m, ok := sp.Members[tname].(*ssa.Type); ok {
+				if tn, ok := m.Type().(*types.Named); ok {
+					c.c13Type("logs", tn)
+				}
+			}
+		}
+	}
+	c.ruleAlias = nil
 	c.c18RunsDoNotOverlap()
 	c.c18StopRecheck()
 }
